@@ -418,4 +418,105 @@ theorem extract_header (endRe : Re) (hnil : Matches endRe []) (hcs : canStart en
   unfold cprOf at this
   rw [this]
 
+/-! ### `_create_new_header` with the default template succeeds -/
+
+theorem ends_header {s : Style} {m : LineMode} {fm : Bool} (hm : lineMode s fm = some m) (sf : StyleFacts s m)
+    (M : List Text) (hM : M ≠ []) (hE : Ends M) : Ends (headerLines s m M) := by
+  cases m with
+  | plain =>
+    have : M.map (physLine s .plain) = M := by
+      rw [List.map_congr_left (fun l _ => physLine_plain s l)]; simp
+    simpa [headerLines, openLines, closeLines, this] using hE
+  | single =>
+    obtain ⟨_, _, hc⟩ := lineMode_single hm
+    have hs : s.single ≠ [] := by
+      intro h0; simp [Generated.Style.canSingle, h0] at hc
+    have hne : ∀ l, physLine s .single l ≠ [] := by
+      intro l
+      cases l with
+      | nil => simpa [physLine, emptyLine] using hs
+      | cons c cs => simp [physLine, linePrefix]
+    right
+    obtain ⟨a, as, rfl⟩ := List.exists_cons_of_ne_nil hM
+    obtain ⟨q, hq⟩ : ∃ q, (a :: as).getLast? = some q := ⟨_, List.getLast?_eq_some_getLast (by simp)⟩
+    refine ⟨⟨physLine s .single a, by simp [headerLines, openLines, closeLines], hne a⟩,
+      ⟨physLine s .single q, ?_, hne q⟩⟩
+    simp only [headerLines, openLines, closeLines, List.nil_append, List.append_nil]
+    rw [List.getLast?_map, hq]; rfl
+  | multi =>
+    right
+    have h1 := sf.frame s.mStart (by simp [openLines])
+    have h2 := sf.frame (s.indentBeforeEnd ++ s.mEnd) (by simp [closeLines])
+    refine ⟨⟨s.mStart, by simp [headerLines, openLines], h1.2.2⟩, ⟨s.indentBeforeEnd ++ s.mEnd, ?_, h2.2.2⟩⟩
+    simp [headerLines, closeLines, List.getLast?_append]
+
+theorem reqOK_of_wfRequest {endRe : Re} {s : Style} {m : LineMode} {info : Extracted}
+    (h : wfRequest endRe s m info = true) :
+    ReqOK endRe s m (sortTexts info.cpr) (sortTexts info.con) (sortTexts info.lic) := by
+  unfold wfRequest at h
+  simp only [Bool.and_eq_true, List.all_eq_true] at h
+  obtain ⟨⟨h1, h2⟩, h3⟩ := h
+  refine ⟨fun l hl => ?_, fun v hv => ?_, fun v hv => ?_⟩
+  · obtain ⟨⟨⟨a, b⟩, c⟩, d⟩ := h1 l (mem_sortTexts.mp hl)
+    exact ⟨a, b, c, d⟩
+  · obtain ⟨⟨⟨a, b⟩, c⟩, d⟩ := h2 v (mem_sortTexts.mp hv)
+    exact ⟨a, b, c, d⟩
+  · obtain ⟨⟨⟨a, b⟩, c⟩, d⟩ := h3 v (mem_sortTexts.mp hv)
+    exact ⟨a, b, c, d⟩
+
+/-- what `_create_new_header` renders and comments for the default template: the header lines -/
+theorem renderedHeader_default {endRe : Re} (c : HdrCfg) (info : Extracted) (m : LineMode)
+    (hr : c.render = defaultRender) (hc : c.commented = false)
+    (hm : lineMode c.style c.forceMulti = some m) (sf : StyleFacts c.style m)
+    (rq : ReqOK endRe c.style m (sortTexts info.cpr) (sortTexts info.con) (sortTexts info.lic)) :
+    renderedHeader c info = .ok (join ['\n'] (headerLines c.style m
+      (bodyLines (sortTexts info.cpr) (sortTexts info.con) (sortTexts info.lic)))) := by
+  generalize hA : sortTexts info.cpr = A at rq ⊢
+  generalize hC : sortTexts info.con = C at rq ⊢
+  generalize hL : sortTexts info.lic = L at rq ⊢
+  have hcalm := body_calm rq
+  have hX : ∀ l ∈ A ++ C.map conLine, l ≠ [] ∧ NoNL l := by
+    intro l hl
+    have : l ∈ bodyLines A C L := by
+      unfold bodyLines; exact List.mem_append_left _ (List.mem_append_left _ hl)
+    simp only [List.mem_append, List.mem_map] at hl
+    have hne : l ≠ [] := by
+      rcases hl with hl | ⟨v, _, rfl⟩
+      · exact noticeSelf_ne (rq.hA l hl).1
+      · simp [conLine]
+    rcases hcalm l this with h0 | ⟨_, hcl⟩
+    · exact absurd h0 hne
+    · exact ⟨hne, noNL_of_noBreak (calm_elim hcl).1⟩
+  have hY : ∀ l ∈ L.map licLine, l ≠ [] ∧ NoNL l := by
+    intro l hl
+    have : l ∈ bodyLines A C L := by
+      unfold bodyLines; exact List.mem_append_right _ hl
+    obtain ⟨v, _, rfl⟩ := List.mem_map.mp hl
+    rcases hcalm _ this with h0 | ⟨hne, hcl⟩
+    · simp [licLine] at h0
+    · exact ⟨hne, noNL_of_noBreak (calm_elim hcl).1⟩
+  have hrender : stripChars ['\n'] (c.render ⟨A, C, L⟩) = join ['\n'] (bodyLines A C L) := by
+    rw [hr, defaultRender_eq]
+    exact strip_render _ _ hX hY
+  have hnlBody : ∀ l ∈ bodyLines A C L, NoNL l := by
+    intro l hl
+    rcases hcalm l hl with rfl | ⟨_, hcl⟩
+    · intro h; cases h
+    · exact noNL_of_noBreak (calm_elim hcl).1
+  have hcomment := createComment_lines c.style c.forceMulti m hm (bodyLines A C L) (lines_ne_nil _ _) hnlBody
+    sf.endNB (fun hmm l hl => by
+      rcases hcalm l hl with rfl | ⟨_, hcl⟩
+      · subst hmm
+        obtain ⟨_, _, hcm⟩ := lineMode_multi hm
+        have hne : c.style.mEnd ≠ [] := by
+          intro h0; simp [Generated.Style.canMulti, h0] at hcm
+        obtain ⟨e, es, he⟩ := List.exists_cons_of_ne_nil hne
+        simp [contains, findSub, he]
+      · exact (calm_elim hcl).2.2 hmm)
+  unfold renderedHeader
+  simp only [hc, Bool.false_eq_true, if_false, hA, hC, hL, hrender, hcomment]
+  have hE : Ends (headerLines c.style m (bodyLines A C L)) :=
+    ends_header hm sf _ (lines_ne_nil _ _) (ends_gap _ _ (fun l hl => (hX l hl).1) (fun l hl => (hY l hl).1))
+  rw [stripLF_join_ends _ hE (fun l hl => noNL_of_noBreak (header_noBreak sf rq l hl))]
+
 end C07A
